@@ -52,7 +52,9 @@ func zzLiabilities(env *ZZEnv) *big.Int {
 func ZZ_C01_Step() {
 	o := zzStateOpts{maxPool: 1, maxBatches: 1, maxPerBatch: 1, concreteIds: true, decChoice: true, chains: []types.ChainID{"ethereum"}}
 	if vrt.Thorough() {
-		o = zzStateOpts{maxPool: 2, maxBatches: 1, maxPerBatch: 1, concreteIds: true, decChoice: true} // 2 transfers per batch: > 1 h
+		// two pool entries on ethereum; with the minter chain as well the relay obligation is not decided by the solver
+		// within its time limit (conversions between three decimals settings), two transfers per batch take > 1 h
+		o = zzStateOpts{maxPool: 2, maxBatches: 1, maxPerBatch: 1, concreteIds: true, decChoice: true, chains: []types.ChainID{"ethereum"}}
 	}
 	if !vrt.Thorough() {
 		zzFeeBound = new(big.Int).Lsh(big.NewInt(1), 64)
